@@ -271,6 +271,47 @@ def asEdit2 (j : Json) : Except String Edit2 := do
   | "delFunc" => return .delFunc (← getNat j "mo") (← getNat j "idx")
   | _ => return .base (← asEdit j)
 
+def asNatPairs (j : Json) (k : String) : Except String (List (Nat × Nat)) := do
+  (← getArr j k).mapM fun e => do
+    match (← e.getArr?).toList with
+    | [a, b] => do return (← asNat a, ← asNat b)
+    | _ => throw "pair expected"
+
+/-- an editing call of the third alphabet; everything else parses to `.base2` -/
+def asEdit3 (j : Json) : Except String Edit3 := do
+  match ← getStr j "e" with
+  | "sortDeep" => return .sortDeep (← getNat j "g") (← getNats j "nest")
+  | "setInputsSlice" => return .setInputsSlice (← getNat j "g") (← getNat j "a") (← getNat j "b") (← getNats j "vs")
+  | "setOutputsSlice" => return .setOutputsSlice (← getNat j "g") (← getNat j "a") (← getNat j "b") (← getNats j "vs")
+  | "popInit" => return .popInit (← getNat j "g") (← getStr j "key")
+  | "clearInits" => return .clearInits (← getNat j "g")
+  | "updateInits" =>
+    let items ← (← getArr j "items").mapM fun e => do
+      match (← e.getArr?).toList with
+      | [k, v] => do return (← asStr k, ← asNat v)
+      | _ => throw "item expected"
+    return .updateInits (← getNat j "g") items
+  | "extendNodes" => return .extendNodes (← getNat j "g") (← getNats j "ns")
+  | "removeSafe" => return .removeSafe (← getNat j "g") (← getNats j "ns")
+  | "rauwMulti" => return .rauwMulti (← asNatPairs j "pairs") (← getBool j "outs")
+  | "renameValues" =>
+    let pairs ← (← getArr j "pairs").mapM fun e => do
+      match (← e.getArr?).toList with
+      | [v, nm] => do return (← asNat v, ← asStr nm)
+      | _ => throw "pair expected"
+    return .renameValues pairs
+  | "replaceNode" =>
+    return .replaceNode (← getNat j "g") (← getNat j "n") (← getStr j "name") (← getStr j "opname")
+      (← getOptNats j "inputs") (← getStrs j "outs")
+  | _ => return .base2 (← asEdit2 j)
+
+def isBase2 : Edit3 → Option Edit2
+  | .base2 e => some e
+  | _ => none
+
+/-- all edits are of the second alphabet -/
+def allBase2 (es : List Edit3) : Option (List Edit2) := es.mapM isBase2
+
 def isBase : Edit2 → Option Edit
   | .base e => some e
   | _ => none
@@ -298,7 +339,7 @@ def runStep (w : World) (j : Json) : Except String (Except Err (Option Nat) × W
     let (r, w') := run (modelClone fuel (← getNat j "mo")) w
     return (r.map some, w')
   | "edit" =>
-    let (r, w') := run (applyEdit2 (← asEdit2 j)) w
+    let (r, w') := run (applyEdit3 (← asEdit3 j)) w
     return (r.map fun _ => none, w')
   | "wellFormed" =>
     return (if wellFormed w && usesBounded w then .ok none else .error (.raised "dangling pointer"), w)
@@ -364,18 +405,53 @@ def handle : Handler := fun m j =>
     return obj [("outcome", outcomeJ (r.map some)),
                 ("vm", Json.arr (s'.vm.reverse.map fun p => Json.arr #[natJ p.1, natJ p.2]).toArray),
                 ("world", Json.arr (s'.w.map cellJ).toArray)]
+  | "clone.functionalizeAny" => some do
+    -- `functionalize(Sequential(...) / PassManager(...))(model)`: every stage instance with the edit history it
+    -- performs (C13_functionalize_any); `PassManager(steps=k)` is sent as the k-fold repetition of its stages
+    let w0 ← (← getArr j "world").mapM asCell
+    let fuel := (j.getObjValAs? Nat "fuel").toOption.getD 64
+    let mo ← getNat j "mo"
+    let stages ← (← getArr j "stages").mapM fun sj => do
+      let edits ← (← getArr sj "edits").mapM asEdit2
+      let d : Decl := { inPlace := ← getBool sj "inPlace", changesInput := ← getBool sj "changesInput" }
+      match ← getStr sj "kind" with
+      | "inplace" => pure (d, Stage.inPlace (fun _ _ => edits))
+      | "rewrap" => do pure (d, Stage.rewrap (fun _ _ => edits) (← getNat sj "header"))
+      | k => throw s!"unknown stage kind {k}"
+    let (r, w1) := functionalizeAny fuel stages 1 mo w0
+    let d := seqDecl stages
+    -- for the harness only: did the model decline one of the edits (`unsupported`)?
+    let declined := match run (modelClone fuel mo) w0 with
+      | (.ok m', wc) =>
+        let rec go : List (Decl × Stage) → Nat → World → Bool
+          | [], _, _ => false
+          | p :: rest, m, w =>
+            (runHistory2 (p.2.edits m w) w).1.any (fun x => match x with
+              | .error (.unsupported _) => true
+              | _ => false) ||
+            match runStage p.1 p.2 m w with
+            | (.ok m1, w1) => go rest m1 w1
+            | _ => false
+        go stages m' wc
+      | _ => false
+    return obj [("outcome", outcomeJ (r.map some)), ("world", Json.arr (w1.map cellJ).toArray),
+                ("declared", obj [("inPlace", d.inPlace), ("changesInput", d.changesInput)]),
+                ("declined", declined)]
   | "clone.functionalize" => some do
     -- `functionalize(pass)(model)` with the pass given as the edit history it performs
     let w0 ← (← getArr j "world").mapM asCell
-    let edits2 ← (← getArr j "edits").mapM asEdit2
+    let edits3 ← (← getArr j "edits").mapM asEdit3
     let fuel := (j.getObjValAs? Nat "fuel").toOption.getD 64
     let mo ← getNat j "mo"
-    let (r, w1) := match allBase edits2 with
-      | some edits => functionalize fuel (fun _ _ => edits) mo w0
-      | none => functionalize2 fuel (fun _ _ => edits2) mo w0
+    let (r, w1) := match allBase2 edits3 with
+      | some edits2 =>
+        (match allBase edits2 with
+          | some edits => functionalize fuel (fun _ _ => edits) mo w0
+          | none => functionalize2 fuel (fun _ _ => edits2) mo w0)
+      | none => functionalize3 fuel (fun _ _ => edits3) mo w0
     -- for the harness only: did the model decline one of the edits (`unsupported`)?
     let declined := match run (modelClone fuel mo) w0 with
-      | (.ok _, wc) => (runHistory2 edits2 wc).1.any fun x => match x with
+      | (.ok _, wc) => (runHistory3 edits3 wc).1.any fun x => match x with
         | .error (.unsupported _) => true
         | _ => false
       | _ => false
@@ -385,10 +461,13 @@ def handle : Handler := fun m j =>
     -- a clone step followed by `runHistory` on a list of edits
     let w0 ← (← getArr j "world").mapM asCell
     let (r, w1) ← runStep w0 (← j.getObjVal? "clone")
-    let edits2 ← (← getArr j "edits").mapM asEdit2
-    let (rs, w2) := match allBase edits2 with
-      | some edits => runHistory edits w1
-      | none => runHistory2 edits2 w1
+    let edits3 ← (← getArr j "edits").mapM asEdit3
+    let (rs, w2) := match allBase2 edits3 with
+      | some edits2 =>
+        (match allBase edits2 with
+          | some edits => runHistory edits w1
+          | none => runHistory2 edits2 w1)
+      | none => runHistory3 edits3 w1
     return obj [("outcomes", Json.arr ((outcomeJ r) :: rs.map (fun x => outcomeJ (x.map fun _ => none))).toArray),
                 ("world", Json.arr (w2.map cellJ).toArray)]
   | _ => none
